@@ -778,8 +778,62 @@ def item_wirefmt(repo):
             'def wireShapeChecked : Bool := true\n')
 
 
+def item_tower(repo):
+    """anemo-tower layers (C18, C19, C20): the bodies of the three `call` functions and of the allow-list
+    authorizer must have exactly the recognised shape; the statuses of the refusal paths are emitted"""
+    def src(rel):
+        t = strip_comments(read(repo, rel))
+        cut = t.find('#[cfg(test)]')
+        return t[:cut] if cut > 0 else t
+    infl = src('crates/anemo-tower/src/inflight_limit.rs')
+    c = flat(strip_hooks(block_after(infl, r'fn\s+call\s*\(\s*&mut self, req: Request<ReqBody>\s*\)\s*->\s*Self::Future')))
+    want = ('let inflight = self.inflight.clone(); let max_inflight = self.max_inflight; let wait_mode = self.wait_mode; let mut inner = self.inner.clone(); '
+            'let fut = async move { let peer_id = req.peer_id().ok_or_else(|| { anemo::rpc::Status::internal("inflight limiter missing request PeerId") })?; '
+            'let semaphore = { let semaphore_entry = inflight .entry(*peer_id) .or_insert_with(|| Arc::new(Semaphore::new(max_inflight))); semaphore_entry.value().clone() }; '
+            'let _permit = match wait_mode { WaitMode::Block => semaphore.acquire().await.map_err(|e| { anemo::rpc::Status::internal(format!( "failed to acquire inflight limiter permit: {e:?}" )) })?, '
+            'WaitMode::ReturnError => semaphore.try_acquire().map_err(|e| match e { tokio::sync::TryAcquireError::Closed => { anemo::rpc::Status::new(StatusCode::InternalServerError) } '
+            'tokio::sync::TryAcquireError::NoPermits => { anemo::rpc::Status::new(StatusCode::TooManyRequests) } })?, }; inner.call(req).await }; Box::pin(fut)')
+    if c != want:
+        raise ValueError('tower: InflightLimit::call')
+    if flat(block_after(infl, r'fn\s+poll_ready\s*\(')) != 'self.inner.poll_ready(cx)':
+        raise ValueError('tower: InflightLimit::poll_ready')
+    rl = src('crates/anemo-tower/src/rate_limit.rs')
+    c = flat(strip_hooks(block_after(rl, r'fn\s+call\s*\(\s*&mut self, req: Request<ReqBody>\s*\)\s*->\s*Self::Future')))
+    want = ('let limiter = self.limiter.clone(); let clock = self.clock.clone(); let wait_mode = self.wait_mode; let mut inner = self.inner.clone(); '
+            'let fut = async move { let peer_id = req.peer_id().ok_or_else(|| { anemo::rpc::Status::internal("rate limiter missing request PeerId") })?; '
+            'match wait_mode { WaitMode::Block => limiter.until_key_ready(peer_id).await, WaitMode::ReturnError => { let now = clock.now(); '
+            'if let Err(e) = limiter.check_key(peer_id) { let wait_time = e.wait_time_from(now); return Err(anemo::rpc::Status::new( anemo::types::response::StatusCode::TooManyRequests, ) '
+            '.with_header(WAIT_NANOS_HEADER, format!("{}", wait_time.as_nanos()))); } } }; inner.call(req).await }; Box::pin(fut)')
+    if c != want:
+        raise ValueError('tower: RateLimit::call')
+    if flat(block_after(rl, r'fn\s+poll_ready\s*\(')) != 'self.inner.poll_ready(cx)':
+        raise ValueError('tower: RateLimit::poll_ready')
+    au = src('crates/anemo-tower/src/auth/service.rs')
+    c = flat(block_after(au, r'fn\s+call\s*\(\s*&mut self, mut request: Request<Bytes>\s*\)\s*->\s*Self::Future'))
+    if c != 'match self.auth.authorize(&mut request) { Ok(()) => ResponseFuture::future(self.inner.call(request)), Err(response) => ResponseFuture::invalid_auth(response), }':
+        raise ValueError('tower: RequireAuthorization::call')
+    fu = flat(src('crates/anemo-tower/src/auth/future.rs'))
+    for piece in ['pub(super) fn future(future: F) -> Self { Self { kind: Kind::Future { future }, } }',
+                  'pub(super) fn invalid_auth(response: Response<Bytes>) -> Self { Self { kind: Kind::Error { response: Some(response), }, } }',
+                  'match self.project().kind.project() { KindProj::Future { future } => future.poll(cx), KindProj::Error { response } => { let response = response.take().unwrap(); Poll::Ready(Ok(response)) } }']:
+        if piece not in fu:
+            raise ValueError('tower: auth ResponseFuture')
+    am = src('crates/anemo-tower/src/auth/mod.rs')
+    a = flat(block_after(am, r'fn\s+authorize\s*\(\s*&self, request: &mut Request<Bytes>\s*\)\s*->\s*Result<\(\), Response<Bytes>>\s*\{\s*use'))
+    m = re.search(r'impl AuthorizeRequest for AllowedPeers \{ fn authorize\(&self, request: &mut Request<Bytes>\) -> Result<\(\), Response<Bytes>> \{ use anemo::types::response::\{IntoResponse, StatusCode\}; let peer_id = request \.peer_id\(\) \.ok_or_else\(\|\| StatusCode::(\w+)\.into_response\(\)\)\?; if self\.allowed_peers\.contains\(peer_id\) \{ Ok\(\(\)\) \} else \{ Err\(StatusCode::(\w+)\.into_response\(\)\) \} \} \}', flat(am))
+    if not m:
+        raise ValueError('tower: AllowedPeers::authorize')
+    if 'allowed_peers: std::collections::HashSet<anemo::PeerId>' not in flat(am) or 'Self { allowed_peers: peers.into_iter().collect(), }' not in flat(am):
+        raise ValueError('tower: AllowedPeers::new')
+    return (f'def allowMissingSenderStatus : StatusCode := .{m.group(1)}\n'
+            f'def allowUnlistedSenderStatus : StatusCode := .{m.group(2)}\n'
+            'def inflightRefusalStatus : StatusCode := .TooManyRequests\n'
+            'def rateRefusalStatus : StatusCode := .TooManyRequests\n'
+            'def towerShapeChecked : Bool := true\n')
+
+
 ITEMS = [('ANEMO', item_anemo), ('Version', item_version), ('StatusCode', item_status),
-         ('headers', item_headers), ('ConfigDefaults', item_config), ('tieBreak', item_tiebreak), ('codegen', item_codegen), ('admit', item_admit), ('life', item_life), ('registry', item_registry), ('tick', item_tick), ('rpcpath', item_rpcpath), ('tls', item_tls), ('wirefmt', item_wirefmt)]
+         ('headers', item_headers), ('ConfigDefaults', item_config), ('tieBreak', item_tiebreak), ('codegen', item_codegen), ('admit', item_admit), ('life', item_life), ('registry', item_registry), ('tick', item_tick), ('rpcpath', item_rpcpath), ('tls', item_tls), ('wirefmt', item_wirefmt), ('tower', item_tower)]
 
 HEADER = '''/- GENERATED by /verif/tools/gen.py from /repo's working tree on every run -- do not edit. -/
 import AnemoModel.Basic
